@@ -83,6 +83,8 @@ func basic(user, pass string) string {
 	return "Basic " + base64.StdEncoding.EncodeToString([]byte(user+":"+pass))
 }
 
+func base64Std(s string) string { return base64.StdEncoding.EncodeToString([]byte(s)) }
+
 type cred struct {
 	hdr   []KV
 	form  []KV
@@ -100,7 +102,7 @@ var rawAuthHeaders = []string{
 }
 
 func genCred(t *rapid.T, label string, dflt string) cred {
-	kinds := []string{"dflt", "dflt", "dflt", "dflt", "basic-web", "basic-svc", "basic-post", "basic-jwtat", "basic-wrong", "raw", "raw", "raw", "post-right", "post-wrong", "post-web", "assertion", "assertion-hostile", "assertion-badtype", "public", "nothing", "two-headers", "basic+assertion"}
+	kinds := []string{"dflt", "dflt", "dflt", "dflt", "dflt", "dflt", "dflt", "dflt", "dflt", "dflt", "dflt", "dflt", "rawgen", "rawgen", "public-native", "assertion-cross", "basic-web", "basic-svc", "basic-post", "basic-jwtat", "basic-wrong", "raw", "raw", "raw", "post-right", "post-wrong", "post-web", "assertion", "assertion-hostile", "assertion-badtype", "public", "nothing", "two-headers", "basic+assertion"}
 	k := rapid.SampledFrom(kinds).Draw(t, label+"kind")
 	if k == "dflt" {
 		k = dflt
@@ -118,6 +120,10 @@ func genCred(t *rapid.T, label string, dflt string) cred {
 		return cred{hdr: []KV{{K: "Authorization", V: basic(rapid.SampledFrom([]string{"web", "nobody", "svc", "native", "jwt", ""}).Draw(t, label+"bwid"), "wrong")}}, label: k}
 	case "raw":
 		return cred{hdr: []KV{{K: "Authorization", V: rapid.SampledFrom(rawAuthHeaders).Draw(t, label+"raw")}}, label: k}
+	case "rawgen":
+		return cred{hdr: []KV{{K: "Authorization", V: genAuthHeader(t, label+"rg")}}, label: k}
+	case "public-native":
+		return cred{form: []KV{{K: "client_id", V: "native"}}, label: k}
 	case "post-right":
 		return cred{form: []KV{{K: "client_id", V: "post"}, {K: "client_secret", V: "p0st"}}, label: k}
 	case "post-wrong":
@@ -128,6 +134,8 @@ func genCred(t *rapid.T, label string, dflt string) cred {
 		return cred{form: []KV{{K: "client_assertion", V: "{assert_jwt}"}, {K: "client_assertion_type", V: vkit.AssertionType}}, label: k}
 	case "assertion-hostile":
 		return cred{form: []KV{{K: "client_assertion", V: "{tok0}"}, {K: "client_assertion_type", V: vkit.AssertionType}}, label: k}
+	case "assertion-cross": // a JWT the provider (or the client) really issued for another purpose
+		return cred{form: []KV{{K: "client_assertion", V: rapid.SampledFrom([]string{"{idt}", "{idt_jwt}", "{jwt_at}", "{bearer_jwt}", "{reqobj}", "{idt_implicit}", "{at}"}).Draw(t, label+"ax")}, {K: "client_assertion_type", V: vkit.AssertionType}}, label: k}
 	case "assertion-badtype":
 		return cred{form: []KV{{K: "client_assertion", V: "{assert_jwt}"}, {K: "client_assertion_type", V: rapid.SampledFrom([]string{"", "jwt", vkit.AssertionType + " ", "{xff}"}).Draw(t, label+"abt")}}, label: k}
 	case "public":
@@ -200,46 +208,79 @@ var hostValues = []string{
 }
 
 var httpScenarios = []string{
-	"token:code", "token:code", "token:code-native", "token:refresh", "token:refresh", "token:cc", "token:cc", "token:bearer", "token:bearer", "token:exchange", "token:exchange", "token:exchange",
+	"token:code", "token:code", "token:code", "token:code", "token:code", "token:code-native", "token:cross", "token:cross", "token:refresh", "token:refresh", "token:refresh", "token:cc", "token:cc", "token:bearer", "token:bearer", "token:exchange", "token:exchange", "token:exchange",
 	"token:device", "token:device", "token:unknown-grant", "token:no-grant", "authorize", "authorize", "authorize", "authorize-post", "callback", "userinfo", "userinfo", "userinfo-post",
 	"introspect", "introspect", "revoke", "revoke", "end_session", "end_session", "device_authorization", "device_authorization", "device_authorization", "discovery", "keys", "healthz", "ready", "random",
 }
 
 var tokenTypes = []string{"urn:ietf:params:oauth:token-type:access_token", "urn:ietf:params:oauth:token-type:refresh_token", "urn:ietf:params:oauth:token-type:id_token", "urn:ietf:params:oauth:token-type:jwt", "", "urn:x:unknown"}
 
-var liveTokens = []string{"{at}", "{jwt_at}", "{rt}", "{idt}", "{tok0}", "{tok1}", "opaque-garbage", "e30.bnVsbA.e30", "{at_other}", ""}
+var liveTokens = []string{"{at}", "{at}", "{jwt_at}", "{jwt_at}", "{rt}", "{rt}", "{idt}", "{idt}", "{tok0}", "{tok0}", "{tok1}", "opaque-garbage", "e30.bnVsbA.e30", "{at_other}", "",
+	"{at_native}", "{at_jwt}", "{rt_post}", "{idt_post}", "{at_revoked}", "{at_expired}", "{rt_used}", "{rt_expired}", "{at_svc}", "{at_device}", "{rt_device}", "{idt_device}", "{at_implicit}", "{idt_implicit}"}
 
-func genScenario(t *rapid.T, sc string) (parts, string) {
+func genScenario(t *rapid.T, sc string) (parts, string, []string) {
 	p := parts{method: "POST", ct: "application/x-www-form-urlencoded", sep: "&"}
 	dflt := "basic-web"
+	var tags []string
 	pick := func(label string, vals ...string) string { return rapid.SampledFrom(vals).Draw(t, label) }
+	tag := func(slotName, v string) { tags = append(tags, slotName+"="+matClass(v)) }
 	switch sc {
 	case "token:code":
+		// the code of any client, from an authorization request without / with S256 / with plain code_challenge, next to any code_verifier
 		p.path = "{p:token}"
-		p.form = []KV{{K: "grant_type", V: vkit.GCode}, {K: "code", V: pick("code", "{code}", "{code}", "{code}", "{code_native}", "garbage", "{tok0}")}, {K: "redirect_uri", V: webRedirect}}
+		cl := pick("cclient", "web", "web", "web", "post", "native", "native", "jwt", "jwtat")
+		pk := pick("cpkce", "none", "none", "s256", "s256", "plain")
+		own := "{code_" + cl + "_" + pk + "}"
+		code := slot(t, "code", own, own, own, own, own, own, "{code_used}", "{code_web_none}", "{code_native_s256}", "garbage", "{tok0}")
+		p.form = []KV{{K: "grant_type", V: vkit.GCode}, {K: "code", V: code}}
+		if ru := pick("cru", "own", "own", "own", "own", "own", webRedirect, nativeRedirect, "https://evil.example.net/cb", "absent"); ru == "own" {
+			p.form = append(p.form, KV{K: "redirect_uri", V: clientRedirect(cl)})
+		} else if ru != "absent" {
+			p.form = append(p.form, KV{K: "redirect_uri", V: ru})
+		}
+		vk := pick("ver", verifierKinds...)
+		if v, ok := verifierValue(t, vk, "ver"); ok {
+			p.form = append(p.form, KV{K: "code_verifier", V: v})
+		}
+		dflt = rightCredKind(cl)
+		tag("code", code)
+		if code == own {
+			tags = append(tags, "pkce:challenge-"+pk+"/verifier-"+vk)
+		}
 	case "token:code-native":
 		p.path = "{p:token}"
 		p.form = []KV{{K: "grant_type", V: vkit.GCode}, {K: "code", V: "{code_native}"}, {K: "redirect_uri", V: nativeRedirect}, {K: "code_verifier", V: pick("ver", pkceVerifier, pkceVerifier, "wrong", "")}, {K: "client_id", V: "native"}}
 		dflt = "nothing"
 	case "token:refresh":
 		p.path = "{p:token}"
-		p.form = []KV{{K: "grant_type", V: vkit.GRefr}, {K: "refresh_token", V: pick("rt", "{rt}", "{rt}", "{rt}", "garbage", "{at}", "{tok0}")}}
+		cl := pick("rclient", "web", "web", "web", "post", "native", "jwt", "jwtat")
+		own := "{rt_" + cl + "}"
+		rt := slot(t, "rt", own, own, own, own, own, "{rt_used}", "{rt_expired}", "{rt_device}", "{rt}", "garbage", "{at}", "{tok0}")
+		p.form = []KV{{K: "grant_type", V: vkit.GRefr}, {K: "refresh_token", V: rt}}
 		if rapid.Bool().Draw(t, "rscope") {
 			p.form = append(p.form, KV{K: "scope", V: pick("rsc", "openid", "openid profile", "admin", "")})
 		}
+		dflt = rightCredKind(cl)
+		tag("refresh_token", rt)
 	case "token:cc":
 		p.path = "{p:token}"
 		p.form = []KV{{K: "grant_type", V: vkit.GCC}, {K: "scope", V: pick("ccscope", "openid", "openid profile", "")}}
 		dflt = "basic-svc"
 	case "token:bearer":
 		p.path = "{p:token}"
-		p.form = []KV{{K: "grant_type", V: vkit.GBearer}, {K: "assertion", V: pick("assertion", "{bearer_jwt}", "{bearer_jwt}", "{tok0}", "{tok0}", "{tok1}", "e30.bnVsbA.e30", "garbage", "")}, {K: "scope", V: "openid"}}
+		as := slot(t, "assertion", "{bearer_jwt}", "{bearer_jwt}", "{tok0}", "{tok0}", "{tok1}", "e30.bnVsbA.e30", "garbage", "", "{assert_jwt}", "{idt_jwt}", "{jwt_at}")
+		p.form = []KV{{K: "grant_type", V: vkit.GBearer}, {K: "assertion", V: as}, {K: "scope", V: "openid"}}
 		dflt = "nothing"
+		tag("assertion", as)
 	case "token:exchange":
 		p.path = "{p:token}"
-		p.form = []KV{{K: "grant_type", V: vkit.GTE}, {K: "subject_token", V: rapid.SampledFrom(liveTokens).Draw(t, "subj")}, {K: "subject_token_type", V: rapid.SampledFrom(tokenTypes).Draw(t, "subjt")}}
+		subj := slot(t, "subj", liveTokens...)
+		p.form = []KV{{K: "grant_type", V: vkit.GTE}, {K: "subject_token", V: subj}, {K: "subject_token_type", V: rapid.SampledFrom(tokenTypes).Draw(t, "subjt")}}
+		tag("subject_token", subj)
 		if rapid.Bool().Draw(t, "actor") {
-			p.form = append(p.form, KV{K: "actor_token", V: rapid.SampledFrom(liveTokens).Draw(t, "act")}, KV{K: "actor_token_type", V: rapid.SampledFrom(tokenTypes).Draw(t, "actt")})
+			act := slot(t, "act", liveTokens...)
+			p.form = append(p.form, KV{K: "actor_token", V: act}, KV{K: "actor_token_type", V: rapid.SampledFrom(tokenTypes).Draw(t, "actt")})
+			tag("actor_token", act)
 		}
 		if rapid.Bool().Draw(t, "rtt") {
 			p.form = append(p.form, KV{K: "requested_token_type", V: rapid.SampledFrom(tokenTypes).Draw(t, "reqt")})
@@ -247,9 +288,24 @@ func genScenario(t *rapid.T, sc string) (parts, string) {
 		if rapid.Bool().Draw(t, "tescope") {
 			p.form = append(p.form, KV{K: "scope", V: "openid profile"}, KV{K: "audience", V: "web"}, KV{K: "resource", V: "https://api.example.com"})
 		}
+		dflt = pick("tecred", "basic-web", "basic-web", "post-right", "assertion", "basic-jwtat")
 	case "token:device":
 		p.path = "{p:token}"
-		p.form = []KV{{K: "grant_type", V: vkit.GDevice}, {K: "device_code", V: pick("dc", "{device_code}", "{device_code_ok}", "{device_code_ok}", "garbage", "")}}
+		dc := slot(t, "dc", "{device_code}", "{device_code_ok}", "{device_code_ok}", "{device_code_ok}", "{device_code_denied}", "{device_code_expired}", "{device_code_used}", "{device_code_post}", "garbage", "")
+		p.form = []KV{{K: "grant_type", V: vkit.GDevice}, {K: "device_code", V: dc}}
+		dflt = pick("dvcred", "basic-web", "basic-web", "basic-web", "post-right", "public-native")
+		tag("device_code", dc)
+	case "token:cross":
+		// any grant with the parameters of any other grant: every slot filled from the whole catalogue
+		p.path = "{p:token}"
+		p.form = []KV{{K: "grant_type", V: rapid.SampledFrom(vkit.AllGrants).Draw(t, "xgrant")}}
+		for i, n := 0, rapid.IntRange(1, 4).Draw(t, "xn"); i < n; i++ {
+			k := pick(fmt.Sprintf("xk%d", i), "code", "code", "code_verifier", "redirect_uri", "refresh_token", "refresh_token", "device_code", "device_code", "assertion", "subject_token", "subject_token_type", "actor_token", "actor_token_type", "scope", "client_id")
+			v := foreignValue(t, k, fmt.Sprintf("xv%d", i))
+			p.form = append(p.form, KV{K: k, V: v})
+			tag(k, v)
+		}
+		dflt = rightCredKind(pick("xclient", "web", "web", "post", "native", "jwt", "jwtat", "svc"))
 	case "token:unknown-grant":
 		p.path = "{p:token}"
 		p.form = []KV{{K: "grant_type", V: pick("ug", "password", "implicit", "AUTHORIZATION_CODE", "authorization_code ", vkit.AssertionType, "{xff}", "{big70000}", "refresh_token\x00")}, {K: "code", V: "{code}"}}
@@ -262,8 +318,8 @@ func genScenario(t *rapid.T, sc string) (parts, string) {
 			{K: "response_type", V: pick("art", "code", "code", "id_token", "id_token token", "token")}, {K: "scope", V: pick("asc", "openid", "openid profile email", "openid offline_access", "profile")}, {K: "state", V: "st"}, {K: "nonce", V: "n1"}}
 		opt := map[string][]string{
 			"prompt": {"none", "login", "none login", "consent", "select_account", ""}, "max_age": {"0", "60", "-1", "abc", "99999999999999999999", "1.5", ""}, "ui_locales": {"de", "de en", "xx-invalid-000000000", "{xff}", ""},
-			"display": {"page", "popup", "weird"}, "login_hint": {"alice", "{big70000}"}, "id_token_hint": {"{idt}", "{idt}", "{tok0}", "{tok1}", "e30.bnVsbA.e30", "garbage", "{at}"}, "acr_values": {"1 2", ""},
-			"code_challenge": {vkit.S256(pkceVerifier), "x", ""}, "code_challenge_method": {"S256", "plain", "none", ""}, "request": {"{reqobj}", "{reqobj}", "{tok0}", "{tok1}", "e30.bnVsbA.e30", "garbage"},
+			"display": {"page", "popup", "weird"}, "login_hint": {"alice", "{big70000}"}, "id_token_hint": {"{idt}", "{idt}", "{tok0}", "{tok1}", "e30.bnVsbA.e30", "garbage", "{at}", "{jwt_at}", "{idt_post}", "{idt_native}", "{idt_device}", "{idt_implicit}", "{rt}", "{code}", "{assert_jwt}", "{reqobj}"}, "acr_values": {"1 2", ""},
+			"code_challenge": {vkit.S256(pkceVerifier), "x", ""}, "code_challenge_method": {"S256", "plain", "none", ""}, "request": {"{reqobj}", "{reqobj}", "{tok0}", "{tok1}", "e30.bnVsbA.e30", "garbage", "{idt}", "{jwt_at}", "{assert_jwt}", "{bearer_jwt}"},
 			"response_mode": {"query", "fragment", "form_post", "weird"}, "request_uri": {"https://rp.example.com/req"}, "claims": {`{"id_token":{"acr":null}}`, "null"},
 		}
 		for _, k := range []string{"prompt", "max_age", "ui_locales", "display", "login_hint", "id_token_hint", "acr_values", "code_challenge", "code_challenge_method", "request", "response_mode", "request_uri", "claims"} {
@@ -279,25 +335,42 @@ func genScenario(t *rapid.T, sc string) (parts, string) {
 		dflt = "nothing"
 	case "callback":
 		p.method, p.ct, p.path = "GET", "", "{p:callback}"
-		p.query = []KV{{K: "id", V: pick("cbid", "{req_id_done}", "{req_id_done}", "{req_id}", "garbage", "", "{req_id_implicit}")}}
+		id := slot(t, "cbid", "{req_id_done}", "{req_id_done}", "{req_id}", "garbage", "", "{req_id_implicit}", "{req_id_used}", "{req_id_s256}")
+		p.query = []KV{{K: "id", V: id}}
+		tag("id", id)
 		dflt = "nothing"
 	case "userinfo":
 		p.method, p.ct, p.path = pick("uim", "GET", "GET", "POST"), "", "{p:userinfo}"
-		p.headers = []KV{{K: "Authorization", V: "Bearer " + pick("uitok", "{at}", "{at}", "{jwt_at}", "{jwt_at}", "{tok0}", "{tok0}", "{tok1}", "e30.bnVsbA.e30", "garbage", "{rt}", "{idt}")}}
+		if rapid.IntRange(0, 3).Draw(t, "uihdr") == 0 {
+			p.headers = []KV{{K: "Authorization", V: genAuthHeader(t, "uih")}}
+			tags = append(tags, "authz-header:generated")
+		} else {
+			tok := slot(t, "uitok", "{at}", "{at}", "{jwt_at}", "{jwt_at}", "{tok0}", "{tok0}", "{tok1}", "e30.bnVsbA.e30", "garbage", "{rt}", "{idt}", "{at_native}", "{at_revoked}", "{at_expired}", "{at_svc}", "{at_device}", "{at_implicit}")
+			p.headers = []KV{{K: "Authorization", V: "Bearer " + tok}}
+			tag("bearer", tok)
+		}
 		dflt = "nothing"
 	case "userinfo-post":
 		p.path = "{p:userinfo}"
-		p.form = []KV{{K: "access_token", V: pick("uiptok", "{at}", "{jwt_at}", "{tok0}", "e30.bnVsbA.e30", "")}}
+		tok := slot(t, "uiptok", "{at}", "{jwt_at}", "{tok0}", "e30.bnVsbA.e30", "", "{at_revoked}", "{at_expired}", "{at_svc}")
+		p.form = []KV{{K: "access_token", V: tok}}
+		tag("access_token", tok)
 		dflt = "nothing"
 	case "introspect":
 		p.path = "{p:introspection}"
-		p.form = []KV{{K: "token", V: rapid.SampledFrom(liveTokens).Draw(t, "intok")}}
+		tok := slot(t, "intok", liveTokens...)
+		p.form = []KV{{K: "token", V: tok}}
+		tag("token", tok)
+		dflt = pick("incred", "basic-web", "basic-web", "basic-web", "post-right", "assertion", "basic-jwtat", "basic-svc")
 		if rapid.Bool().Draw(t, "inhint") {
 			p.form = append(p.form, KV{K: "token_type_hint", V: pick("inh", "access_token", "refresh_token", "x")})
 		}
 	case "revoke":
 		p.path = "{p:revocation}"
-		p.form = []KV{{K: "token", V: rapid.SampledFrom(liveTokens).Draw(t, "rvtok")}}
+		tok := slot(t, "rvtok", liveTokens...)
+		p.form = []KV{{K: "token", V: tok}}
+		tag("token", tok)
+		dflt = pick("rvcred", "basic-web", "basic-web", "basic-web", "post-right", "assertion", "basic-jwtat", "public-native")
 		if rapid.Bool().Draw(t, "rvhint") {
 			p.form = append(p.form, KV{K: "token_type_hint", V: pick("rvh", "access_token", "refresh_token", "x", "")})
 		}
@@ -305,7 +378,9 @@ func genScenario(t *rapid.T, sc string) (parts, string) {
 		p.method, p.ct, p.path = pick("esm", "GET", "GET", "POST"), "", "{p:end_session}"
 		q := []KV{}
 		if rapid.IntRange(0, 3).Draw(t, "eshint") > 0 {
-			q = append(q, KV{K: "id_token_hint", V: pick("eshv", "{idt}", "{idt}", "{tok0}", "{tok0}", "{tok1}", "e30.bnVsbA.e30", "garbage", "{jwt_at}")})
+			hint := slot(t, "eshv", "{idt}", "{idt}", "{tok0}", "{tok0}", "{tok1}", "e30.bnVsbA.e30", "garbage", "{jwt_at}", "{idt_post}", "{idt_native}", "{idt_device}", "{idt_implicit}")
+			q = append(q, KV{K: "id_token_hint", V: hint})
+			tag("id_token_hint", hint)
 		}
 		if rapid.Bool().Draw(t, "escid") {
 			q = append(q, KV{K: "client_id", V: pick("escidv", "web", "nobody", "native")})
@@ -325,7 +400,7 @@ func genScenario(t *rapid.T, sc string) (parts, string) {
 	case "device_authorization":
 		p.path = "{p:device_authorization}"
 		p.form = []KV{{K: "scope", V: pick("dasc", "openid", "openid profile offline_access", "")}}
-		dflt = pick("dacred", "basic-web", "public")
+		dflt = pick("dacred", "basic-web", "basic-web", "public", "post-right", "public-native", "assertion", "basic-svc")
 	case "discovery":
 		p.method, p.ct, p.path = "GET", "", "/.well-known/openid-configuration"
 		dflt = "nothing"
@@ -345,7 +420,7 @@ func genScenario(t *rapid.T, sc string) (parts, string) {
 		p.form = []KV{{K: "grant_type", V: vkit.GCode}, {K: "code", V: "{code}"}}
 		dflt = "nothing"
 	}
-	return p, dflt
+	return p, dflt, tags
 }
 
 func genHTTPCase(t *rapid.T) HTTPCase {
@@ -359,10 +434,13 @@ func genHTTPCase(t *rapid.T) HTTPCase {
 			c.Off = append(c.Off, f)
 		}
 	}
+	c.ErrStyle = rapid.SampledFrom([]string{"", "", "", "oidc", "wrapped", "server"}).Draw(t, "errstyle")
+	c.Repeat = rapid.SampledFrom([]int{0, 0, 0, 0, 0, 0, 0, 1, 1, 2}).Draw(t, "repeat")
 	c.Scenario = rapid.SampledFrom(httpScenarios).Draw(t, "scenario")
-	p, dflt := genScenario(t, c.Scenario)
+	p, dflt, tags := genScenario(t, c.Scenario)
+	c.Tags = tags
 	needsCred := strings.HasPrefix(c.Scenario, "token:") || c.Scenario == "introspect" || c.Scenario == "revoke" || c.Scenario == "device_authorization"
-	if needsCred || rapid.IntRange(0, 9).Draw(t, "credany") == 9 {
+	if needsCred || rapid.IntRange(0, 9).Draw(t, "credany") >= 8 {
 		cr := genCred(t, "cred", dflt)
 		p.headers = append(p.headers, cr.hdr...)
 		p.form = append(p.form, cr.form...)
@@ -376,7 +454,7 @@ func genHTTPCase(t *rapid.T) HTTPCase {
 		if len(p.form) == 0 || (len(p.query) > 0 && rapid.Bool().Draw(t, l+"q")) {
 			list = &p.query
 		}
-		mk := rapid.SampledFrom([]string{"drop", "dup", "dupdiff", "hostile", "hostile", "hostile", "empty", "rawpair", "rawpair", "swap", "method", "ct", "rawbody", "pathmut", "header", "sep", "keycase"}).Draw(t, l+"kind")
+		mk := rapid.SampledFrom([]string{"drop", "dup", "dupdiff", "hostile", "hostile", "hostile", "empty", "rawpair", "rawpair", "swap", "method", "ct", "rawbody", "pathmut", "header", "sep", "keycase", "extra", "extra", "extra", "cross", "cross"}).Draw(t, l+"kind")
 		idx := 0
 		if len(*list) > 0 {
 			idx = rapid.IntRange(0, len(*list)-1).Draw(t, l+"idx")
@@ -401,6 +479,15 @@ func genHTTPCase(t *rapid.T) HTTPCase {
 			if len(*list) > 0 {
 				mk += ":" + (*list)[idx].K
 				(*list)[idx].V = rapid.SampledFrom(hostileParamValues).Draw(t, l+"hv")
+			}
+		case "extra": // a parameter that belongs to another request shape, with live material
+			k := rapid.SampledFrom(foreignParams).Draw(t, l+"fk")
+			*list = append(*list, KV{K: k, V: foreignValue(t, k, l)})
+			mk += ":" + k
+		case "cross": // the value of a parameter replaced by any live material
+			if len(*list) > 0 {
+				mk += ":" + (*list)[idx].K
+				(*list)[idx].V = rapid.SampledFrom(crossPool).Draw(t, l+"cv")
 			}
 		case "empty":
 			if len(*list) > 0 {
@@ -617,6 +704,14 @@ func directHandler(name string, sut *vkit.SUT) http.Handler {
 	})
 }
 
+// errStyleOf maps the case's value to one of vkit.ErrStyles (anything unknown: the default style).
+func errStyleOf(s string) string {
+	if contains(vkit.ErrStyles, s) {
+		return s
+	}
+	return ""
+}
+
 // serverRefuses repeats the checks net/http's server makes after parsing a request and before calling the handler.
 func serverRefuses(req *http.Request, nHost int) string {
 	// (http.ReadRequest has already moved the Host header into req.Host)
@@ -656,7 +751,7 @@ func runHTTP(c HTTPCase, res *vkit.Result, h string) {
 	if !ok {
 		alg, keyName = "ES256", "p256a"
 	}
-	st := vkit.NewStore(httpClients(), vkit.SignKeySpec{KeyName: keyName, Alg: alg, KID: "sig1"}, vkit.StorePolicy{TE: vkit.TEPolicy{VerifyThird: true}})
+	st := vkit.NewStore(httpClients(), vkit.SignKeySpec{KeyName: keyName, Alg: alg, KID: "sig1"}, vkit.StorePolicy{TE: vkit.TEPolicy{VerifyThird: true}, ErrStyle: errStyleOf(c.ErrStyle)})
 	router := c.Router
 	if router != "legacy" {
 		router = "provider"
@@ -797,50 +892,83 @@ func runHTTP(c HTTPCase, res *vkit.Result, h string) {
 		where += ":" + g
 	}
 
-	r := vkit.Serve(handler, st, req)
-
-	if r.Panic != nil {
-		res.Fail(panicFP(r.Stack), "%s %s -> panic: %v (response already started: %v, status %d)\n%s", method, clip(target, 200), r.Panic, r.JournalAtWrite >= 0, r.Status,
-			clip(strings.Join(libFrames(r.Stack), " <- "), 600))
+	// the same request, served 1+Repeat times by the same instance (a code / refresh token / device code presented again, a second
+	// poll): every answer is judged by the same per-request oracle
+	repeat := c.Repeat
+	if repeat < 0 {
+		repeat = 0
 	}
-	if r.WriteHeaderCalls > 1 {
-		res.Fail("C09:two-responses:"+where, "%s %s: WriteHeader called %d times (first status %d); body %q", method, clip(target, 200), r.WriteHeaderCalls, r.Status, clip(string(r.Body), 300))
+	if repeat > 3 {
+		repeat = 3
 	}
-	if r.Panic == nil && (r.Status < 100 || r.Status > 599) {
-		res.Fail("C09:invalid-status:"+where, "%s %s: status code %d is not a valid HTTP status", method, clip(target, 200), r.Status)
-	}
-	errorAnswer := r.Status >= 400
-	if r.IsRedirect() {
-		if dp := vkit.DeliveredParams(r.Location()); dp.Get("error") != "" {
-			errorAnswer = true
-		}
-	}
-	docs, clean := jsonDocs(r.Body)
-	if strings.HasPrefix(r.Header.Get("Content-Type"), "application/json") && len(r.Body) > 0 && r.WriteHeaderCalls <= 1 && r.Panic == nil {
-		if !clean || len(docs) != 1 {
-			res.Fail("C09:malformed-json-response:"+where, "%s %s: response declared as JSON is not one JSON document: %q", method, clip(target, 200), clip(string(r.Body), 300))
-		}
-	}
-	if errorAnswer {
-		if r.JournalAtWrite >= 0 && r.JournalAtEnd > r.JournalAtWrite {
-			calls := st.CallsOf(r.Req)
-			after := ""
-			if n := r.JournalAtEnd - r.JournalAtWrite; n <= len(calls) {
-				after = calls[len(calls)-n].Method
+	var r *vkit.Resp
+	errorAnswer := false
+	statuses := ""
+	for rep := 0; rep <= repeat; rep++ {
+		if rep > 0 {
+			var err error
+			if req, err = http.ReadRequest(bufio.NewReaderSize(strings.NewReader(raw.String()), 1<<20)); err != nil {
+				break
 			}
-			res.Fail("C09:storage-after-error:"+where+":"+after, "%s %s: answered %d, then called storage (%s, %d calls after the first response byte)", method, clip(target, 200), r.Status, after, r.JournalAtEnd-r.JournalAtWrite)
+			req.RemoteAddr = "192.0.2.1:1234"
+			method = fmt.Sprintf("[repetition %d] %s", rep, c.Method)
 		}
-		if tm := tokenMaterial(r.Body); len(tm) > 0 {
-			res.Fail("C09:tokens-after-error:"+where, "%s %s: error answer (status %d) carries token material %v: %q", method, clip(target, 200), r.Status, tm, clip(string(r.Body), 300))
+		r = vkit.Serve(handler, st, req)
+		statuses += fmt.Sprintf("%d ", r.Status)
+
+		if r.Panic != nil {
+			res.Fail(panicFP(r.Stack), "%s %s -> panic: %v (response already started: %v, status %d)\n%s", method, clip(target, 200), r.Panic, r.JournalAtWrite >= 0, r.Status,
+				clip(strings.Join(libFrames(r.Stack), " <- "), 600))
 		}
+		if r.WriteHeaderCalls > 1 {
+			res.Fail("C09:two-responses:"+where, "%s %s: WriteHeader called %d times (first status %d); body %q", method, clip(target, 200), r.WriteHeaderCalls, r.Status, clip(string(r.Body), 300))
+		}
+		if r.Panic == nil && (r.Status < 100 || r.Status > 599) {
+			res.Fail("C09:invalid-status:"+where, "%s %s: status code %d is not a valid HTTP status", method, clip(target, 200), r.Status)
+		}
+		errorAnswer = r.Status >= 400
 		if r.IsRedirect() {
-			dp := vkit.DeliveredParams(r.Location())
-			for _, k := range tokenMembers {
-				if dp.Get(k) != "" && dp.Get("error") != "" {
-					res.Fail("C09:tokens-after-error:"+where, "%s %s: error redirect carries %s", method, clip(target, 200), k)
+			if dp := vkit.DeliveredParams(r.Location()); dp.Get("error") != "" {
+				errorAnswer = true
+			}
+		}
+		docs, clean := jsonDocs(r.Body)
+		if strings.HasPrefix(r.Header.Get("Content-Type"), "application/json") && len(r.Body) > 0 && r.WriteHeaderCalls <= 1 && r.Panic == nil {
+			if !clean || len(docs) != 1 {
+				res.Fail("C09:malformed-json-response:"+where, "%s %s: response declared as JSON is not one JSON document: %q", method, clip(target, 200), clip(string(r.Body), 300))
+			}
+		}
+		if errorAnswer {
+			if r.JournalAtWrite >= 0 && r.JournalAtEnd > r.JournalAtWrite {
+				calls := st.CallsOf(r.Req)
+				after := ""
+				if n := r.JournalAtEnd - r.JournalAtWrite; n <= len(calls) {
+					after = calls[len(calls)-n].Method
+				}
+				res.Fail("C09:storage-after-error:"+where+":"+after, "%s %s: answered %d, then called storage (%s, %d calls after the first response byte)", method, clip(target, 200), r.Status, after, r.JournalAtEnd-r.JournalAtWrite)
+			}
+			if tm := tokenMaterial(r.Body); len(tm) > 0 {
+				res.Fail("C09:tokens-after-error:"+where, "%s %s: error answer (status %d) carries token material %v: %q", method, clip(target, 200), r.Status, tm, clip(string(r.Body), 300))
+			}
+			if r.IsRedirect() {
+				dp := vkit.DeliveredParams(r.Location())
+				for _, k := range tokenMembers {
+					if dp.Get(k) != "" && dp.Get("error") != "" {
+						res.Fail("C09:tokens-after-error:"+where, "%s %s: error redirect carries %s", method, clip(target, 200), k)
+					}
 				}
 			}
 		}
+
+	}
+	if repeat > 0 {
+		res.Label(fmt.Sprintf("http-repeat:%d", repeat))
+	}
+	for _, tg := range c.Tags {
+		res.Label("http-x:" + tg)
+	}
+	if c.ErrStyle != "" {
+		res.Label("http-errstyle:" + errStyleOf(c.ErrStyle))
 	}
 
 	out := fmt.Sprintf("%dxx", r.Status/100)
@@ -866,5 +994,5 @@ func runHTTP(c HTTPCase, res *vkit.Result, h string) {
 		mutClass[i] = strings.SplitN(m, ":", 2)[0]
 	}
 	res.Key = "http|" + router + "|" + where + "|" + c.Scenario + "|" + strings.Join(mutClass, ",") + "|" + h
-	res.Info = map[string]any{"where": where, "status": r.Status, "panic": r.Panic != nil, "write_header_calls": r.WriteHeaderCalls, "storage_calls": r.JournalAtEnd, "body": clip(string(r.Body), 160)}
+	res.Info = map[string]any{"where": where, "status": r.Status, "panic": r.Panic != nil, "write_header_calls": r.WriteHeaderCalls, "storage_calls": r.JournalAtEnd, "body": clip(string(r.Body), 160), "statuses": strings.TrimSpace(statuses)}
 }
